@@ -1,6 +1,6 @@
 (* C17 -- the refinement theorem: every operation of the level-1 model has the level-0 effect. *)
 From Coq Require Import List NArith ZArith Bool Lia.
-From Muscle Require Import Cont.StrL0 Cont.StrModel Cont.StrLemmas Cont.StrGrow Cont.StrCore Cont.StrOps Cont.StrL0Facts Cont.StrDist Cont.StrOps2 Cont.StrProd.
+From Muscle Require Import Cont.StrL0 Cont.StrModel Cont.StrSpec Cont.StrLemmas Cont.StrGrow Cont.StrCore Cont.StrOps Cont.StrL0Facts Cont.StrDist Cont.StrOps2 Cont.StrProd.
 Import ListNotations.
 Local Open Scope N_scope.
 
@@ -18,7 +18,9 @@ Fixpoint args_ok (o : op) : Prop :=
   | OWithoutSuffixS a _ | OWithoutPrefixS a _ | OPlusS a | OWithoutSuffixSI a _ | OWithoutPrefixSI a _ | OGetDistance a _ | ONumCmp a _ | OMinusPS a => sarg_ok a
   | OReplaceS a b _ _ | OWithReplS a b _ _ => sarg_ok a /\ sarg_ok b
   | OWithWord _ a sep => sarg_ok a /\ nulfree sep
+  | OReplaceMulti pairs _ | OWithReplMulti pairs _ => Forall (fun p => nulfree (snd p)) pairs
   | OEscaped seps _ => nulfree seps
+  | OArgFloatText buf _ => nulfree buf
   | OAppendCh ch | OSetAt _ ch | OPlusCh ch | OChPlus ch => ch <> 0
   | OCPlus lit => nulfree lit /\ lenN lit < LIM
   | OReplaceCh _ b _ _ | OWithReplCh _ b _ _ => b <> 0
@@ -41,7 +43,9 @@ Fixpoint need (l : list N) (o : op) : N :=
   | OShiftBool _ => n + 6
   | OWithWord _ a sep => n + lenN (lit_of l a) + 2 * lenN sep + 1
   | OIndented k _ => n * (k + 1) + k + 1
+  | OReplaceMulti pairs m | OWithReplMulti pairs m => N.max n (lenN (fst (l0_replace_multi l pairs m))) + 1
   | OEscaped _ _ => 3 * n + 1
+  | OArgFloatText buf m => lenN buf + m + 3 + n + (lenN buf + m + 1) * n
   | OPrealloc k => k + 1
   | OShrink extra => n + 1 + extra
   | OReplaceS _ wm _ _ | OWithReplS _ wm _ _ => n + lenN (lit_of l wm) * n + 1
@@ -90,6 +94,37 @@ Proof.
   - pose proof (B 0 ltac:(lia)). cbn [Z.to_N] in *. lia.
   - pose proof (B (N.pos p) ltac:(lia)). cbn [Z.to_N] in *. lia.
   - pose proof (B (N.pos p) ltac:(lia)). rewrite lenN_cons. lia.
+Qed.
+
+Lemma strip_suffix_fuel_len' f l suf max : lenN (strip_suffix_fuel f l suf max) <= lenN l.
+Proof.
+  revert l max. induction f as [|f IH]; intros l max; cbn [strip_suffix_fuel]; [lia|].
+  destruct ((0 <? max) && ends_with l suf); [|lia].
+  specialize (IH (l0_trunc_chars l (lenN suf)) (max - 1)).
+  assert (lenN (l0_trunc_chars l (lenN suf)) <= lenN l) by (unfold l0_trunc_chars; rewrite lenN_takeN; lia). lia.
+Qed.
+Lemma nulfree_strip_suffix' f l suf max : nulfree l -> nulfree (strip_suffix_fuel f l suf max).
+Proof.
+  revert l max. induction f as [|f IH]; intros l max H; cbn [strip_suffix_fuel]; [exact H|].
+  destruct ((0 <? max) && ends_with l suf); [|exact H]. apply IH. now apply nulfree_takeN.
+Qed.
+Lemma float_text_facts buf m : nulfree buf -> nulfree (l0_float_text buf m) /\ lenN (l0_float_text buf m) <= lenN buf + m + 1.
+Proof.
+  intros F. unfold l0_float_text.
+  set (s1 := if existsb (N.eqb 46) buf then strip_suffix_fuel (S (length buf)) buf [48] NOLIMIT else buf).
+  assert (F1 : nulfree s1) by (unfold s1; destruct (existsb (N.eqb 46) buf); [now apply nulfree_strip_suffix'|exact F]).
+  assert (L1 : lenN s1 <= lenN buf) by (unfold s1; destruct (existsb (N.eqb 46) buf); [apply strip_suffix_fuel_len'|lia]).
+  assert (Z0 : nulfree (repN 48 m)) by (intros; apply nulfree_repN; discriminate).
+  assert (Zr : forall k, nulfree (repN 48 k)) by (intros; apply nulfree_repN; discriminate).
+  destruct (m =? 0).
+  - destruct (ends_with s1 [46]); [|split; [exact F1|lia]].
+    split; [now apply nulfree_takeN|]. unfold l0_trunc_chars. rewrite lenN_takeN. lia.
+  - destruct (l0_last_index_of_ch s1 46 0).
+    + split; [apply nulfree_app; split; [exact F1|apply Zr]|]. rewrite lenN_app, lenN_repN. lia.
+    + split; [apply nulfree_app; split; [exact F1|apply Zr]|]. rewrite lenN_app, lenN_repN. lia.
+    + split.
+      * apply nulfree_app; split; [apply nulfree_app; split; [exact F1|constructor; [discriminate|constructor]]|apply Zr].
+      * rewrite !lenN_app, lenN_repN, lenN_cons, lenN_nil. lia.
 Qed.
 
 Lemma nulfree_dec_of_Z z : nulfree (dec_of_Z z).
@@ -227,6 +262,8 @@ Local Notation strip_ch_prefix_nc_suffix := (StrProd.strip_ch_prefix_nc_suffix M
 Local Notation with_word_spec := (StrProd.with_word_spec M TH PG OV jk M_pos TH_ge PG_pos PG_le OV_lt M_le).
 Local Notation indented_spec := (StrProd.indented_spec M TH PG OV jk M_pos TH_ge PG_pos PG_le OV_lt M_le).
 Local Notation escaped_spec := (StrProd.escaped_spec M TH PG OV jk M_pos TH_ge PG_pos PG_le OV_lt M_le).
+Local Notation replace_multi_spec := (StrProd.replace_multi_spec M TH PG OV jk M_pos TH_ge PG_pos PG_le OV_lt M_le).
+Local Notation float_text_spec := (StrProd.float_text_spec M TH PG OV jk M_pos TH_ge PG_pos PG_le OV_lt M_le).
 Local Notation subj_ok := (StrProd.subj_ok M).
 Local Notation step1 := (step1 M TH PG OV jk true).
 Local Notation mutate := (mutate M TH PG OV jk true).
@@ -332,6 +369,12 @@ Proof.
     + assert (NF : ~ nulfree bytes) by (intros X; apply cstr_fixpoint_unterminated in X; congruence).
       destruct (U2 NF) as (x & Ex & I' & A'). rewrite Ex in H. inversion H; subst.
       eexists _, _. splits; trivial; try exact Logic.I.
+  - (* Replace(Hashtable) *)
+    pose proof (replace_multi_spec s pairs max I ltac:(lia)) as R.
+    destruct (StrModel.replace_multi1 M TH PG OV jk true s pairs max) as [[w|] n];
+      destruct (l0_replace_multi (abs s) pairs max) as [l0 k0]; cbn [fst snd] in *; inversion H; subst.
+    + destruct R as (R1 & R2 & R3). subst. eexists _, _. splits; trivial; try exact Logic.I.
+    + destruct R as (R1 & R2 & R3). subst. eexists _, _. splits; trivial; try exact Logic.I.
   - (* operator[] write *)
     inversion H; subst. rewrite (lenN_abs s I). destruct (i <? slen s) eqn:E.
     + apply N.ltb_lt in E. destruct (map_content_spec s (fun x => upd x i ch) I) as (I' & A').
@@ -369,7 +412,7 @@ Proof.
   assert (Sb : subj_ok s) by (split; [exact I|now rewrite <- (lenN_abs s I)]).
   assert (Ls : lenN (abs s) = slen s) by apply (lenN_abs s I).
   destruct o; cbn [StrModel.produce produce0] in *; try discriminate; cbn [args_ok need] in *;
-    inversion H; subst; clear H; cbn [StrModel.abs_out out_inv].
+    inversion H; subst; clear H; cbn [StrSpec.abs_out out_inv].
   - (* copy *) destruct (copy_spec s Sb) as (I' & A'). eexists; splits; [reflexivity|f_equal; exact A'|exact I'].
   - (* copy with prealloc *) destruct (copy_pre_spec s extra Sb) as (I' & A'). eexists; splits; [reflexivity|f_equal; exact A'|exact I'].
   - (* Substring(a,b) *) destruct (sub_spec s first after Sb) as (I' & A'). eexists; splits; [reflexivity|f_equal; exact A'|exact I'].
@@ -526,6 +569,21 @@ Proof.
   - (* IndentedBy *)
     destruct (indented_spec s n ch Sb) as (I' & A'); [rewrite <- Ls; exact Nd|].
     eexists; splits; [reflexivity|f_equal; exact A'|exact I'].
+  - (* Arg(double, min, max), from the sprintf output on *)
+    destruct (float_text_facts buf minDigits Ao) as (Ft & Lt).
+    destruct (float_text_spec buf minDigits Ao) as (If & Af); [lia|].
+    rewrite Af.
+    destruct (arg_spec s (l0_float_text buf minDigits) Sb F Ft) as (I' & A'); [unfold LIM in *; lia|nia|].
+    eexists; splits; [reflexivity|f_equal; exact A'|exact I'].
+  - (* WithReplacements(Hashtable) *)
+    pose proof (replace_multi_spec s pairs max I ltac:(lia)) as R.
+    destruct (StrModel.replace_multi1 M TH PG OV jk true s pairs max) as [[w|] n].
+    + destruct R as (R1 & R2 & R3).
+      destruct (ctor_copy_spec (src_of w) (src_ok_of w R1)) as (I' & A').
+      { cbn [src_of snd]. rewrite <- (lenN_abs w R1), R2. unfold LIM in *. lia. }
+      eexists; splits; [reflexivity| |exact I']. f_equal. rewrite A'. exact R2.
+    + destruct R as (R1 & R2 & R3). destruct (copy_spec s Sb) as (I' & A').
+      eexists; splits; [reflexivity| |exact I']. f_equal. now rewrite A', R3.
   - (* String + char *)
     destruct inv_empty1 as (I0 & S0 & A0 & _).
     destruct (prealloc_safe (StrModel.empty1 M jk) (u32 (slen s + 1)) I0) as (Ip & Ap).
@@ -630,7 +688,7 @@ Proof.
     intros o' Ok'. cbn [StrModel.step1 step0]. apply op_ok_assign in Ok'.
     destruct (produce s o') as [r|] eqn:Ep.
     - destruct (produce_refines s o' r I F Ok' Ep) as (q & E0 & O' & V'). rewrite E0.
-      destruct r; cbn [StrModel.abs_out] in O'; subst q; cbn [fst snd out_inv] in *; splits; trivial; exact Logic.I.
+      destruct r; cbn [StrSpec.abs_out] in O'; subst q; cbn [fst snd out_inv] in *; splits; trivial; exact Logic.I.
     - rewrite (produce_none s o' Ep). cbn [fst snd]. splits; trivial. exact Logic.I. }
   destruct o; try (refine (Plain _ _ Ok); exact Logic.I). now apply Asg.
 Qed.
